@@ -154,6 +154,26 @@ def coq_props(pid):
                 cmd='make -C coq (full .vo build) && coqc -R . PV props/%s.v' % pid)
 
 
+def coqchk(pid):
+    """Independent re-check of props/<pid>.vo and everything it depends on (thorough tier). Returns dict(ok, axioms, log)."""
+    t0 = time.time()
+    p = subprocess.run(['timeout', '1500', 'coqchk', '-silent', '-o', '-R', '.', 'PV', 'PV.props.' + pid], cwd=COQ,
+                       capture_output=True, text=True, preexec_fn=_limits)
+    out = p.stdout + p.stderr
+    axioms = []
+    m = re.search(r'\* Axioms:(.*?)\n\s*\n\* ', out, re.S)
+    if m:
+        axioms = [x.strip() for x in m.group(1).split('\n') if x.strip() and x.strip() != '<none>']
+    unsafe = []
+    for key in ('type-in-type', 'unsafe (co)fixpoints', 'positivity is assumed'):
+        mm = re.search(re.escape(key) + r':(.*?)\n\s*\n', out + '\n\n', re.S)
+        if mm and '<none>' not in mm.group(1):
+            unsafe.append(key + ': ' + mm.group(1).strip()[:200])
+    bad = [a for a in axioms if a.split('.')[-1] not in ALLOWED_AXIOMS and a not in ALLOWED_AXIOMS]
+    return dict(ok=p.returncode == 0 and not unsafe and not bad, axioms=axioms, bad_axioms=bad, unsafe=unsafe, log=out[-1500:],
+                wall=round(time.time() - t0, 1), cmd='coqchk -silent -o -R . PV PV.props.%s' % pid)
+
+
 def vm_crosscheck(pid, cases, shard=400, nproc=8):
     """cases: list of (func, args, expected) where expected came from the OCaml oracle.
     Writes coq/cases/<pid>_<n>.v files proving func args = expected by vm_compute,
@@ -235,7 +255,12 @@ class Ctx:
         """kind: 'property' (spec fails on the implementation's output: a concrete failing input),
         'correspondence' (model and implementation differ, spec not shown to fail),
         'proof' (an obligation no longer checks)."""
+        if kind == 'correspondence' and sum(1 for v in self.violations if v['kind'] == kind and v.get('site') == site) >= 3:
+            return          # enough of these to localise the break; keep looking for a concrete failing input
         self.violations.append(dict(kind=kind, what=what, replay=replay, site=site))
+
+    def nprop(self):
+        return sum(1 for v in self.violations if v['kind'] == 'property')
 
     def note(self, s):
         self.notes.append(s)
